@@ -1,0 +1,10 @@
+//go:build verif
+
+// Contracts for package aead, checked by /verif (ssovc). Comment-only file.
+package aead
+
+//@ interface Cipher.Unmarshal(value string, s interface{}) error
+//@   modifies pointee(s)
+
+//@ interface Cipher.Marshal(s interface{}) (string, error)
+//@   modifies nothing
